@@ -48,7 +48,7 @@ CHECKS = {
          "mirror the records, for every flag combination and every case-folding function), lifted by induction to every "
          "finite history (C05_histories), with C05_reject / C05_reject_iff (ValueError, exactly when one match without merge or several "
          "matches; the same rule is evaluated by the Lean checker on every add of the implementation), C05_shape / C05_resolves (append unchanged or merge keeping canonical prefix, URI prefix and pattern), "
-         "and C05_fresh / C05_histories_fresh (answers equal those of a converter freshly built from the current records, "
+         "C05_afterAdd / C05_afterAdd_reject / C05_records_refine (the records after any history are what folding the index-free list function Spec.afterAdd over the history gives; the Lean checker demands exactly these records of the implementation after every add), and C05_fresh / C05_histories_fresh (answers equal those of a converter freshly built from the current records, "
          "via T0 and permutation invariance of the specification), C05_lookup_structures (after any history prefix_map, synonym_to_prefix, reverse_prefix_map, the trie and pattern_map are, as functions, the ones computed from the current records; the Lean checker evaluates the same statement on the dictionaries the implementation exposes). Correspondence replays histories with planted overlaps "
          "and observes records, all five lookup structures and a probe set after every operation. Every one-step history over names differing only by case (3 072 quick / 28 812 thorough) is enumerated completely on every run.",
     design="§7 C05", technique="Lean 4 theorem (invariant by induction over operation histories, refinement T0) + history correspondence with full observation after each step"),
@@ -77,7 +77,7 @@ CHECKS = {
          "get_subconverter C09_sub_records (exactly the records with a prefix or synonym in P, well-formed) and C09_sub_expand "
          "(answers as the parent on kept prefixes, None otherwise), C09_priority (case-sensitive: every record of the first "
          "converter survives with its canonical prefix, canonical URI prefix and pattern, so every prefix known to c1 expands "
-         "as in c1) and C09_singleton (chain([c]) has c's records). C09_grouping (every record of every input is contained, "
+         "as in c1) and C09_singleton (chain([c]) has c's records). C09_chain_refines / C09_sub_refines (whether chain succeeds and which records it holds is the fold of Spec.afterAdd over the inputs' record lists; get_subconverter holds exactly Spec.subRecords - the Lean checker demands both of the implementation whenever the inputs' records were observed). C09_grouping (every record of every input is contained, "
          "CURIE prefixes and URI prefixes alike, in one record of the result) and C09_ci_separated (with case_sensitive=False no "
          "two records of the result hold CURIE prefixes or URI prefixes equal up to case, for every folding function). The same "
          "laws are evaluated on the implementation's outputs on every run.",
@@ -132,9 +132,14 @@ CHECKS = {
          "then Turtle literal lexing is the identity for every string without '\"', LF, CR - in particular with backslashes - for "
          "prefix, URI prefix and pattern), C14_tsv and C14_tsv_bytes (the text write_tsv puts on disk, through the byte-level model "
          "of the csv dialect - Model/Csv.lean, csv_roundtrip: reading back what the writer wrote is the identity for every table "
-         "and every cell content - parses back to exactly the canonical pairs). JSON and Turtle files are modelled at the level "
-         "of what the reader's parser hands back; the real writers and readers are run on real files for every case, and the text "
-         "of every TSV file is compared character for character with the model.",
+         "and every cell content - parses back to exactly the canonical pairs), C14_epm_bytes and C14_jsonld_bytes (the text "
+         "write_extended_prefix_map / write_jsonld_context put on disk, through the text-level model of json.dumps and json.loads - "
+         "Model/Json.lean, parse_render: reading the written text gives the value back for every value made of Unicode scalar values, "
+         "every indent, both ensure_ascii modes - reads back to the record dictionaries resp. the context that was written). Turtle "
+         "files are modelled at the level of the string literals; the real writers and readers are run on real files for every case, "
+         "the text of every TSV file is compared character for character with the model, every JSON file is parsed by the modelled "
+         "json.loads and compared with CPython's result, and 10 % of the cases exercise the JSON text layer alone against CPython's "
+         "json (well-formed and ill-formed documents, both directions).",
     design="§7 C14", technique="Lean 4 theorem (write/read inverse laws over a model of the formats) + round trips through real files"),
  "C15": dict(
     text="Proof: C15_roundtrip (print then from_curie is the identity for every separator-free prefix and every identifier, "
